@@ -426,6 +426,20 @@ def b_ord(c):
 @builtin("getattr")
 def b_getattr(c):
     x, n = c.args[0], c.args[1]
+    if is_const(n) and isinstance(n[2], str) and n[2].isidentifier() and isinstance(x, tuple) and x and x[0] in ("nt", "obj", "enum") and len(x) == 3 and len(c.args) < 3:
+        # getattr(record, "field") with a constant name: the attribute access itself
+        import ast as _ast
+
+        node = _ast.Attribute(value=_ast.Name(id="$gobj", ctx=_ast.Load()), attr=n[2], ctx=_ast.Load())
+        for y in _ast.walk(node):
+            _ast.copy_location(y, c.e)
+        s = c.s.copy()
+        s.env = dict(s.env)
+        s.env["$gobj"] = x
+        for s2, k2, p2 in c.w.expr(node, s):
+            s2.env.pop("$gobj", None)
+            c.outs.append((s2, k2, p2))
+        return
     if len(c.args) < 3:
         c.rz("AttributeError", "getattr() of an attribute that may be missing", [("nohasattr", x, n[2] if is_const(n) else None)])
     c.ret(("attr", x, n[2]) if is_const(n) else Fresh("getattr"), pure=False)
